@@ -4,7 +4,7 @@ import json, subprocess
 built = {
  "C01": ("exactly-once ledger (accept/cancel/purge vs. executions) over seeded programs x schedules, all worker and queue kinds", "§5 C01"),
  "C02": ("online in-flight counter vs. the largest limit in effect since the oldest in-flight job was dispatched; gated worker functions, TunePool/Restart/Pause under saturation", "§5 C02"),
- "C03": ("bounded liveness by exact quiescence: no accepted job unfinished at rest, work conservation at gated quiescence, no internal goroutine blocked on send/lock at rest, livelock by step cap under the ageing scheduler", "§5 C03"),
+ "C03": ("bounded liveness by exact quiescence: no accepted job unfinished at rest, work conservation at gated quiescence (also with refusing and bounded user-supplied queues), no internal goroutine blocked on send/lock at rest, livelock by step cap under the ageing scheduler", "§5 C03"),
  "C05": ("handle calls return after the job's release event and do return once it happened (any number of concurrent/repeated callers)", "§5 C05"),
  "C06": ("barrier exactness: WaitUntilFinished vs. finish events of earlier-accepted jobs, PauseAndWait/Stop/WaitAndStop vs. in-flight count, no barrier blocked at rest", "§5 C06"),
  "C07": ("Result/Err/ID/Data vs. the harness outcome function of the payload, panics contained, metrics split, errors on Errs() attributable", "§5 C07"),
@@ -12,7 +12,7 @@ built = {
  "C09": ("no function entry between a returned PauseAndWait/Stop/WaitAndStop and the next Resume/Restart; Pause bound; pending set and order preserved across cycles", "§5 C09"),
  "C10": ("cancel excludes run, return codes of Close, purge/queue-close effects, nobody silently dropped, no panic", "§5 C10"),
  "C16": ("monotone status per job under interval semantics, Processing while running, Closed after Wait", "§5 C16"),
- "C17": ("counter bounds at every sample, exact accounting at quiescent points (running and paused/stopped)", "§5 C17"),
+ "C17": ("counter bounds at every sample, exact accounting at quiescent points (running and paused/stopped); raw-queue layer: Len of the real queue types within [0, enqueues invoked] under concurrent enqueue/dequeue/purge clients", "§5 C17"),
 }
 pending = {
 }
